@@ -319,6 +319,13 @@ def _run(ctx):
         if p is None and recs:
             # ... and no way out of the function skips the record (an early return drops the reported set)
             p = pr.path_avoiding(fcfg, [fcfg.entry], [fcfg.exit], {fcfg.node(r) for r in recs})
+        rebound = [s_ for s_ in q.assigns(ctx, f, hparam)] + [s_ for s_ in q.assigns(ctx, f, tparam)]
+        ctx.check(not rebound, 'C20.RECORD', ctx.key(f, None, 'recorded under the reported height'),
+                  'the reported height and set are recorded as reported (the parameters are not re-assigned)',
+                  'the report is re-labelled before it is recorded: ' + '; '.join(norm(x) for x in rebound[:2]) + ' - a refresh taken at h is '
+                  'filed under another height, so a notification for that height goes out without a refresh at it',
+                  loc=ctx.loc(f, rebound[0] if rebound else f.node))
+        n_r += 1
         ctx.check(bool(recs) and p is None and awaited, 'C20.RECORD', ctx.key(f, joins[0], 'recorded first'),
                   f'the reported set is recorded under its height in {cont} before the join is attempted',
                   f'the join can run, or the function can return, without the reported set having been recorded in {cont} under its height',
